@@ -91,6 +91,11 @@ def check_case(case):
     out.nontrivial = bool(meta.get('defects')) or 'non-default-delimiters' in meta.get('classes', [])
     out.key = [text, eol, fix, mode]
     d, ref = x12ref.tokenize(x12ref.universal_newlines(text))
+    if case.get('text2'):
+        out.classes.append('two-input-files')
+        check_multi(case, out)
+        if out.failures:
+            return out
     with tempfile.TemporaryDirectory(prefix='vpx_c20_') as wd:
         res, exc, so = normalise(text, eol, fix, mode, wd)
         if exc is not None:
@@ -193,6 +198,43 @@ def _repair(segs, d):
     return out
 
 
+def expected_text(text, eol, fix):
+    d, ref = x12ref.tokenize(x12ref.universal_newlines(text))
+    exp = [(s.id, s.trimmed()) for s in ref]
+    if fix:
+        exp = _repair(exp, d)
+    return x12ref.serialize(exp, d, '\n' if eol else '') + ('' if eol else '\n')
+
+
+def check_multi(case, out):
+    """two input files in one invocation: each must be normalised as if it were alone"""
+    eol, fix, mode = bool(case['eol']), bool(case['fix']), case['mode']
+    texts = [case['text'], case['text2']]
+    with tempfile.TemporaryDirectory(prefix='vpx_c20m_') as wd:
+        paths = []
+        for i, t in enumerate(texts):
+            p_ = os.path.join(wd, 'in%d.x12' % i)
+            with open(p_, 'w', encoding='ascii', newline='') as fh:
+                fh.write(t)
+            paths.append(p_)
+        argv = (['-e'] if eol else []) + (['-f'] if fix else []) + (['-i'] if mode == 'inplace' else []) + paths
+        so, exc = run_norm(argv)
+        if exc is not None:
+            out.fail(core.exc_bucket(exc, 'main-multi'), core.exc_detail(exc))
+            return
+        want = [expected_text(t, eol, fix) for t in texts]
+        if mode == 'inplace':
+            got = [open(p_, encoding='ascii', newline='').read() for p_ in paths]
+            for i in range(2):
+                if got[i] != want[i]:
+                    out.fail('multi-file:inplace:file-%d' % i, 'file #%d of 2 (lengths %d, %d): result has %d characters, expected %d'
+                             % (i, len(texts[0]), len(texts[1]), len(got[i]), len(want[i])))
+                    return
+        else:
+            if so != ''.join(want):
+                out.fail('multi-file:stdout', 'stdout has %d characters, the two normalisations together %d' % (len(so), len(''.join(want))))
+
+
 def strategy(tier):
     from hypothesis import strategies as st
 
@@ -233,10 +275,11 @@ def strategy(tier):
             segs.append(x12ref.make_isa(ele=ele, sub=sub, term=term, icvn=icvn, rep=rep, ctl=ictl)[:-1])
             ngs = draw(st.sampled_from([0, 1, 1, 2, 3]))
             for gi in range(ngs):
-                segs.append(ele.join(['GS', 'HC', 'S', 'R', '20040101', '1230', str(gi + 1), 'X', '004010X098A1']))
+                gctl = other(str(gi + 1), '1', 'GS06-dup') if gi > 0 else str(gi + 1)
+                segs.append(ele.join(['GS', 'HC', 'S', 'R', '20040101', '1230', gctl, 'X', '004010X098A1']))
                 nst = draw(st.sampled_from([0, 1, 1, 2, 3]))
                 for si in range(nst):
-                    sctl = '%04d' % (si + 1)
+                    sctl = other('%04d' % (si + 1), '0001', 'ST02-dup') if si > 0 else '%04d' % (si + 1)
                     segs.append(ele.join(['ST', '837', sctl]))
                     nb = draw(st.integers(0, 7))
                     hl = 0
@@ -267,14 +310,23 @@ def strategy(tier):
                         else:
                             segs.append(ele.join(['NM1', '85', '2', draw(vals), '', '', '', '', 'XX', draw(vals)]))
                     segs.append(ele.join(['SE', cnt(nb + 2, 'SE01'), other(sctl, '9999', 'SE02')]))
-                segs.append(ele.join(['GE', cnt(nst, 'GE01'), other(str(gi + 1), '77', 'GE02')]))
+                segs.append(ele.join(['GE', cnt(nst, 'GE01'), other(gctl, '77', 'GE02')]))
             segs.append(ele.join(['IEA', cnt(ngs, 'IEA01'), other(ictl, '000000099', 'IEA02')]))
         text = ''.join(s + term + lay for s in segs)
         fix = draw(st.booleans()) or bool(defects) and draw(st.booleans())
         if others:
             classes.add('non-count-defect')
+        text2 = None
+        if draw(st.integers(0, 3)) == 0:
+            # a second, shorter input file for the same invocation: a prefix of the first up to an IEA, or a tiny one
+            cut = [i for i, s_ in enumerate(segs) if s_.startswith('IEA') and i < len(segs) - 1]
+            if cut:
+                text2 = ''.join(s_ + term + lay for s_ in segs[:cut[0] + 1])
+            else:
+                isa2 = x12ref.make_isa(ele=ele, sub=sub, term=term, icvn=icvn, rep=rep, ctl='000000009')[:-1]
+                text2 = ''.join(s_ + term + lay for s_ in [isa2, ele.join(['IEA', '0', '000000009'])])
         return {'text': text, 'eol': draw(st.booleans()), 'fix': fix, 'mode': draw(st.sampled_from(['stdout', 'outfile', 'inplace'])),
-                'meta': {'classes': sorted(classes), 'defects': defects, 'others': others}}
+                'text2': text2, 'meta': {'classes': sorted(classes), 'defects': defects, 'others': others}}
 
     return gen()
 
